@@ -21,6 +21,9 @@ pub enum Flavour {
     DropErr,
     /// Ordinary system returning `WarnErr`; returns `Err` after queuing its commands.
     WarnErr,
+    /// The zero-sized `fn` item `exec::zst_body` (no captured state): every registration of it is the *same*
+    /// function type, so only the framework keeps their system states apart.
+    Zst,
 }
 
 /// How a top-level op is issued.
@@ -175,6 +178,21 @@ pub struct Program {
     /// Permutation index (0..6) of the three frame systems used by `Entry::Frame` ops.
     #[serde(default)]
     pub frame_order: u8,
+    /// Reactors registered while the app is built, through `App::add_reactor` (persistent).
+    #[serde(default)]
+    pub app_reactors: Vec<AppReactor>,
+    /// Starting triggers of world reactor 1 (`App::add_world_reactor_with`).
+    #[serde(default)]
+    pub wr_start: Vec<Trig>,
+}
+
+#[derive(Clone, Debug, PartialEq, Eq, Hash, Serialize, Deserialize)]
+pub struct AppReactor {
+    pub bundle: Vec<Trig>,
+    pub script: u8,
+    pub flavour: Flavour,
+    #[serde(default)]
+    pub shape: u8,
 }
 
 //-------------------------------------------------------------------------------------------------------------------
@@ -331,6 +349,10 @@ pub struct Profile {
     pub flavour_w: [u32; 4],
     pub entry_w: [u32; 4],
     pub mode_w: [u32; 3],
+    /// Percentage of systems that are the zero-sized fn item.
+    pub zst_pct: usize,
+    /// Number of reactors registered through `App::add_reactor`.
+    pub app_reactors: (usize, usize),
 }
 
 impl Profile {
@@ -352,6 +374,8 @@ impl Profile {
             flavour_w: [6, 2, 1, 1],
             entry_w: [6, 2, 2, 0],
             mode_w: [3, 4, 4],
+            zst_pct: 12,
+            app_reactors: (0, 2),
         }
     }
 }
@@ -414,6 +438,9 @@ pub fn gen_bundle(r: &mut Rng, p: &Profile, min: usize) -> Vec<Trig> {
 }
 
 pub fn gen_flavour(r: &mut Rng, p: &Profile) -> Flavour {
+    if r.chance(p.zst_pct) {
+        return Flavour::Zst;
+    }
     match weighted(r, &p.flavour_w) {
         0 => Flavour::Ord,
         1 => Flavour::Excl,
@@ -567,5 +594,29 @@ pub fn gen_program(seed: u64, p: &Profile) -> Program {
         }
     }
     let frame_order = r.below(6) as u8;
-    Program { name: format!("{}-{}", p.name, seed), scripts, ops, fuel: p.fuel, init_comps, frame_order }
+    let n_app = r.range(p.app_reactors.0, p.app_reactors.1);
+    let app_reactors = (0..n_app)
+        .map(|_| {
+            // only current entity slots exist while the app is built
+            let bundle: Vec<Trig> = gen_bundle(&mut r, p, 1)
+                .into_iter()
+                .map(|t| match t {
+                    Trig::Ee(s, n) => Trig::Ee(s % NE as u8, n),
+                    Trig::EIns(s, n) => Trig::EIns(s % NE as u8, n),
+                    Trig::EMut(s, n) => Trig::EMut(s % NE as u8, n),
+                    Trig::ERem(s, n) => Trig::ERem(s % NE as u8, n),
+                    Trig::Desp(s) => Trig::Desp(s % NE as u8),
+                    t => t,
+                })
+                .collect();
+            AppReactor {
+                bundle,
+                script: r.below(64) as u8,
+                flavour: if r.chance(60) { Flavour::Zst } else { gen_flavour(&mut r, p) },
+                shape: r.below(4) as u8,
+            }
+        })
+        .collect();
+    let wr_start = if p.w.wr > 0 && r.chance(30) { gen_bundle(&mut r, p, 1).into_iter().filter(|t| t.ent_ref().map(|s| (s as usize) < NE).unwrap_or(true)).collect() } else { vec![] };
+    Program { name: format!("{}-{}", p.name, seed), scripts, ops, fuel: p.fuel, init_comps, frame_order, app_reactors, wr_start }
 }
